@@ -16,9 +16,13 @@ from .core import frac
 # Input classes on which unchanged pyCSEP contradicts the property as read by this check; reported in notes/C01.md, kept out of
 # the strict oracles until the integrator decides (fix: commit or known finding). The rest of each case is still checked.
 AWAITING_DECISION = [
-    "increase_grid_resolution: the origins of the refined cells carry compute_vertex's `- tol` (origin + dh/2 - eps), so for "
-    "|coordinate| < ~1 a refined cell's own origin lies eps below the edge array and is attributed to the neighbouring cell",
+    "a NaN or -inf coordinate: get_masked / get_index_of / filter_spatial raise IndexError (bin1d_vec turns -inf + |p|*eps = nan into "
+    "the minimum int64) instead of reporting the point outside the region; +inf is handled (masked) and is enforced",
 ]
+# Decided after phase 1 (integrator): the refined origins `increase_grid_resolution` returns carry compute_vertex's `- eps`; a refined
+# cell's own origin then lies a few 1e-16 below the cleaned edge and goes to the neighbouring cell. That is inside the documented
+# round-off tolerance of the property (relative distance of order 1e-12 below a boundary): the band rule applies, no violation.
+BAND_REL = 1e-12
 
 REL = 1e-9
 
@@ -355,22 +359,34 @@ def check_incres(run, drv, pending, base, spec, region, cells, orng, seed):
     if len(pts) > 1 and (len(coarse.xs) > 1 and len(coarse.ys) > 1) and not numpy.all(cnt == f2):
         run.oracle_failure(rec["case"], f"refined cells per parent cell: {sorted(set(cnt.tolist()))} (expected {f2} each)")
         return
-    # AWAITING_DECISION[0]: own-origin lookup of the refined cells is observed, not enforced
+    # own-origin lookup of the refined cells: the origin must go to its own cell, or — band rule of the property — to the
+    # neighbour below when it lies within the documented relative tolerance 1e-12 below the cleaned edge
     try:
         m = fine.get_masked(a[:, 0], a[:, 1])
         oi = numpy.full(len(a), -1)
         if (~m).any():
             oi[~m] = fine.get_index_of(a[~m, 0], a[~m, 1])
-        nbad = int((oi != numpy.arange(len(a))).sum())
-    except Exception:
-        nbad = -1
-    if nbad:
-        run.count("awaiting-decision: refined cell's own origin attributed to a neighbour", max(nbad, 1))
-        w = run.extra.setdefault("awaiting_decision_witness", None)
-        if w is None and nbad > 0:
-            k = int(numpy.argmax(oi != numpy.arange(len(a))))
-            run.extra["awaiting_decision_witness"] = (f"increase_grid_resolution({pts[:3].tolist()!r}..., {dh!r}, {factor}) -> origin "
-                                                      f"{a[k].tolist()!r} of refined cell {k} is attributed to cell {int(oi[k])}")
+    except Exception as e:
+        run.oracle_failure(rec["case"], f"own-origin lookup in the refined region raised {type(e).__name__}: {e}")
+        return
+    badk = numpy.nonzero(oi != numpy.arange(len(a)))[0]
+    fxs, fys = numpy.asarray(fine.xs, dtype=float), numpy.asarray(fine.ys, dtype=float)
+    for k in badk:
+        ok = oi[k] >= 0
+        if ok:
+            # the cell it went to must be the one just below/left (or diagonal) and the origin must be in the band of its own edge
+            for v, edges, w in ((a[k, 0], fxs, a[oi[k], 0]), (a[k, 1], fys, a[oi[k], 1])):
+                j = int(numpy.argmin(numpy.abs(edges - v)))
+                d = edges[j] - v                    # > 0: the origin lies below the cleaned edge
+                tolv = BAND_REL * max(abs(v), ndh)
+                if not (abs(d) <= tolv and (abs(w - v) <= tolv or abs((v - w) - ndh) <= 2 * tolv)):
+                    ok = False
+        if not ok:
+            run.oracle_failure(rec["case"], f"origin {a[k].tolist()!r} of refined cell {int(k)} is attributed to cell {int(oi[k])} "
+                                            f"(origin {a[oi[k]].tolist() if oi[k] >= 0 else None!r}): not its own cell and not within the round-off band below its edge")
+            return
+    if len(badk):
+        run.count("in-band: refined cell's own origin (origin + dh/2 - eps) attributed to the neighbour below", int(len(badk)))
     # grid_spacing on two vertices of the lattice: a diagonal step gives the spacing, a repeated point and a non-square step are rejected
     o = pts[0]
     for what, v0, v1, expect in (("diagonal", (o[0], o[1]), (o[0] + dh, o[1] + dh), "dh"),
@@ -579,21 +595,392 @@ def flush_filter(run, rec, line):
                 run.mismatch(dict(rec["case"], at=op, what="stats"), est, f[3])
 
 
+
+# ------------------------------------------------------------------------------------------------- sessions on SHARED objects
+def _snap(region):
+    """every attribute of a region that the property says lookups / filters / counts must not change"""
+    def b(a):
+        a = numpy.asarray(a)
+        return (a.shape, str(a.dtype), numpy.nan_to_num(a.astype(float), nan=-12345.0).tobytes())
+    try:
+        return (b(region.xs), b(region.ys), b(region.bbox_mask), b(region.idx_map), float(region.dh), len(region.polygons),
+                None if region.poly_mask is None else tuple(int(m) for m in region.poly_mask),
+                None if region.magnitudes is None else b(region.magnitudes), b(region.bounds),
+                tuple(id(q) for q in region.polygons[:50]))
+    except Exception as e:     # a region that lost an attribute has changed
+        return ("EXC", type(e).__name__, str(e)[:80])
+
+
+def check_shared_session(run, drv, pending, base, spec, region, cells, flags, orc, pts, ans, exact_only, orng, seed):
+    """Several catalogs that SHARE region objects, an interleaved random sequence of public calls (spatial filters with every
+    combination of region argument / update_stats / in_place — also with a region that has ANOTHER bounding box —, per-cell counts,
+    index lookups, reads of the region, masked_region, to_dict edited by the caller), and after EVERY step: each catalog holds
+    exactly the events the partition of its effective region keeps (recomputed from scratch), every other catalog is untouched,
+    and no region object has changed (snapshot of all arrays)."""
+    from csep.core.regions import CartesianGrid2D, masked_region
+    from csep.core.catalogs import CSEPCatalog
+    from csep.core.exceptions import CSEPCatalogException
+    from csep.models import Polygon
+    from . import c01
+    n = len(region.polygons)
+    if n > 3000 or len(region.xs) < 2 or len(region.ys) < 2:
+        return
+    case0 = dict(base, what="ops:shared_session", ops_seed=seed)
+    org = numpy.asarray(region.origins(), dtype=float)
+    maskB = [1 if orng.random() < 0.6 else 0 for _ in range(n)]
+    # region C: a sub-lattice with its own (smaller) bounding box — the collection-region -> testing-region two-step cut
+    pos_first = {}
+    for k, c in enumerate(cells):
+        pos_first.setdefault(c, k)
+    distinct = sorted(pos_first.values())
+    keepC = [k for k in distinct if orng.random() < 0.6]
+    try:
+        regB = CartesianGrid2D(region.polygons, region.dh, mask=maskB)
+        regC = None
+        if len(keepC) >= 2:
+            regC = CartesianGrid2D.from_origins(org[keepC].copy(), dh=region.dh)
+            if len(regC.xs) < 2 or len(regC.ys) < 2:
+                regC = None
+    except Exception as e:
+        run.oracle_failure(dict(case0, points=[]), f"building the session's regions raised {type(e).__name__}: {e}")
+        return
+    regs = {"a": region, "b": regB, "c": regC, "n": None}
+    tags = ["a", "b"] + (["c"] if regC is not None else [])
+    if regC is not None:
+        imin = min(cells[k][0] for k in keepC)
+        jmin = min(cells[k][1] for k in keepC)
+        orcC = c01.Oracle(regC, [(cells[k][0] - imin, cells[k][1] - jmin) for k in keepC], [1] * len(keepC))
+    tolb = 1e-9 * float(region.dh)
+    pool = sorted(exact_only)
+    if regC is not None:
+        pool = [k for k in pool if not orcC.allowed(pts[k][0], pts[k][1])[2] and not _close_to_boundary(orcC, pts[k], tolb)
+                and not _close_to_boundary(orc, pts[k], tolb)]
+    if len(pool) < 3:
+        return
+    ev = [pts[k] for k in (orng.choice(pool) for _ in range(orng.randint(3, 30)))]
+    act = {}
+    for t, fl in (("a", flags), ("b", maskB)):
+        act[t] = {c for c, f in zip(cells, fl) if f == 1}
+    inside = {"a": [], "b": [], "c": []}
+    for p in ev:
+        ex, ey = orc.ax.exact(p[0], Fraction(p[0])), orc.ay.exact(p[1], Fraction(p[1]))
+        for t in ("a", "b"):
+            inside[t].append(ex is not None and ey is not None and (ex, ey) in act[t])
+        inside["c"].append(regC is not None and orcC.allowed(p[0], p[1])[1] != "o")
+    data = [(str(k), 1000 * k, float(lat), float(lon), 10.0, 5.0) for k, (lon, lat) in enumerate(ev)]
+    # catalogs: each a subset of the events, bound to a shared region (or to none)
+    cats = []      # dict(obj, ids, reg, lean=list of ops or None)
+    try:
+        for _ in range(orng.randint(2, 3)):
+            ids = sorted(set(orng.randrange(len(ev)) for _ in range(orng.randint(1, len(ev)))))
+            bound = orng.choice(tags + ["n"])
+            cs = orng.random() < 0.6
+            cats.append(dict(obj=CSEPCatalog(data=[data[k] for k in ids], region=regs[bound], compute_stats=cs), ids=ids, reg=bound,
+                             init=(list(ids), bound, cs), lean=[]))
+    except Exception as e:
+        run.oracle_failure(dict(case0, points=[]), f"CSEPCatalog(...) raised {type(e).__name__}: {e}")
+        return
+    snaps = {t: _snap(regs[t]) for t in tags}
+    lon_all = numpy.array([p[0] for p in ev])
+    lat_all = numpy.array([p[1] for p in ev])
+    steps = []
+    run.case(None, ("shared-session", seed))
+    run.count("ops:shared-session")
+
+    def fail(msg, step):
+        run.count("ORACLE-FAIL-shared-session")
+        run.oracle_failure(dict(case0, points=[[repr(p[0]), repr(p[1])] for p in ev], steps=steps + [step],
+                                catalogs=[dict(events=c["init"][0], bound=c["init"][1], compute_stats=c["init"][2]) for c in cats if "init" in c]),
+                           f"after step {len(steps) + 1} ({step}): {msg}")
+
+    for _ in range(orng.randint(4, 9)):
+        ci = orng.randrange(len(cats))
+        c = cats[ci]
+        kind = orng.choice(["filter", "filter", "filter", "counts", "idx", "read", "dict", "masked"])
+        step = None
+        try:
+            if kind == "filter":
+                r, us, ip = orng.choice(tags + ["n", "n"]), orng.random() < 0.5, orng.random() < 0.55
+                step = f"cat{ci}.filter_spatial(region={r}, update_stats={us}, in_place={ip})"
+                eff = r if r != "n" else c["reg"]
+                try:
+                    out = c["obj"].filter_spatial(region=regs[r], update_stats=us, in_place=ip)
+                    got = "ok"
+                except CSEPCatalogException:
+                    got = "E"
+                if eff == "n":
+                    if got != "E":
+                        return fail("filter_spatial without any region did not raise CSEPCatalogException", step)
+                    if c.get("lean") is not None:
+                        c["lean"].append((r + ("1" if us else "0") + ("1" if ip else "0"), "E"))
+                else:
+                    if got != "ok":
+                        return fail("filter_spatial raised CSEPCatalogException although a region is given / bound", step)
+                    surv = [k for k in c["ids"] if inside[eff][k]]
+                    out_ids = [int(i) for i in out.get_event_ids()]
+                    if out_ids != surv:
+                        return fail(f"the returned catalog holds events {out_ids[:25]}; the events inside region {eff} are {surv[:25]}", step)
+                    if out.region is not regs[eff] or c["obj"].region is not regs[eff]:
+                        return fail(f"the region bound afterwards is not the effective region {eff} (argument wins, else the bound one)", step)
+                    if ip != (out is c["obj"]):
+                        return fail(f"in_place={ip} but returned-object-is-self={out is c['obj']}", step)
+                    if us:
+                        st = [getattr(out, a, None) for a in ("min_longitude", "max_longitude", "min_latitude", "max_latitude")]
+                        est = [min(ev[k][0] for k in surv), max(ev[k][0] for k in surv), min(ev[k][1] for k in surv),
+                               max(ev[k][1] for k in surv)] if surv else [None] * 4
+                        if [None if v is None else float(v) for v in st] != est:
+                            return fail(f"update_stats=True: statistics {st!r}, expected {est!r}", step)
+                    if c.get("lean") is not None:
+                        c["lean"].append((r + ("1" if us else "0") + ("1" if ip else "0"), (surv if ip else list(c["ids"]), eff, surv, us)))
+                        if eff == "c" or r == "c":
+                            c["lean"] = None          # the Lean op knows regions a and b only
+                    if ip:
+                        c["ids"] = surv
+                    elif len(cats) < 5:
+                        cats.append(dict(obj=out, ids=list(surv), reg=eff, lean=None))
+                    c["reg"] = eff
+            elif kind in ("counts", "idx"):
+                if c["reg"] == "n":
+                    continue
+                step = f"cat{ci}.{'spatial_counts' if kind == 'counts' else 'get_spatial_idx'}()"
+                t = c["reg"]
+                allin = all(inside[t][k] for k in c["ids"])
+                try:
+                    res = c["obj"].spatial_counts() if kind == "counts" else c["obj"].get_spatial_idx()
+                    res = numpy.asarray(res)
+                    got = "ok"
+                except ValueError:
+                    got = "ValueError"
+                if (got == "ok") != allin and c["ids"]:
+                    return fail(f"{got}, but {'every event lies' if allin else 'some event does not lie'} in an active cell of region {t}", step)
+                if got == "ok" and c["ids"]:
+                    # per-point answers of the very region object, looked up one catalog-independent call
+                    ref = regs[t].get_index_of(numpy.array([ev[k][0] for k in c["ids"]]), numpy.array([ev[k][1] for k in c["ids"]]))
+                    exp = numpy.bincount(ref, minlength=len(regs[t].polygons)) if kind == "counts" else numpy.asarray(ref)
+                    if res.shape != exp.shape or not numpy.array_equal(res, exp):
+                        return fail(f"result {res.tolist()[:20]} is not the {'histogram' if kind == 'counts' else 'list'} of the per-point cells {exp.tolist()[:20]}", step)
+            elif kind == "read":
+                t = orng.choice(tags)
+                step = f"region {t}: get_masked / get_index_of / get_cartesian / get_bbox / midpoints / origins"
+                lo, la = lon_all.copy(), lat_all.copy()
+                m = numpy.asarray(regs[t].get_masked(lo, la)).astype(bool)
+                if m.tolist() != [not v for v in inside[t]]:
+                    return fail(f"get_masked of the session's events is {m.tolist()[:25]}, expected {[not v for v in inside[t]][:25]}", step)
+                if (~m).any():
+                    regs[t].get_index_of(lo[~m], la[~m])
+                regs[t].get_cartesian(numpy.arange(len(regs[t].polygons), dtype=float))
+                regs[t].get_bbox(); regs[t].midpoints(); regs[t].origins()
+                if not (numpy.array_equal(lo, lon_all) and numpy.array_equal(la, lat_all)):
+                    return fail("the coordinate arrays handed to the lookups were modified", step)
+            elif kind == "dict":
+                t = orng.choice(tags)
+                step = f"region {t}: to_dict() edited by the caller, to_dict() again"
+                d1 = regs[t].to_dict()
+                import copy
+                ref = copy.deepcopy(d1)
+                d1["dh"] = 12345.0
+                if d1.get("polygons"):
+                    d1["polygons"][0]["lon"] = -999.0
+                    d1["polygons"].pop()
+                d1["name"] = "edited"
+                d2 = regs[t].to_dict()
+                if d2 != ref:
+                    return fail("editing the dictionary returned by to_dict() changed what to_dict() returns next", step)
+            else:
+                t = orng.choice(tags)
+                step = f"masked_region(region {t}, polygon)"
+                verts, _, _ = _convex_polygon(orng, regs[t], None)
+                poly = Polygon(verts)
+                if any(poly.contains(regs[t].midpoints())):
+                    masked_region(regs[t], poly)
+        except Exception as e:
+            return fail(f"unexpected {type(e).__name__}: {str(e)[:120]}", step or kind)
+        if step is None:
+            continue
+        # after EVERY step: every catalog holds what the oracle says, no region object has changed
+        for cj, cc in enumerate(cats):
+            try:
+                ids = [int(i) for i in cc["obj"].get_event_ids()]
+                rb = cc["obj"].region
+            except Exception as e:
+                return fail(f"catalog {cj} unreadable: {type(e).__name__}: {e}", step)
+            if ids != cc["ids"]:
+                return fail(f"catalog {cj} holds events {ids[:25]}, expected {cc['ids'][:25]}" + (" (a catalog the step did not touch)" if cj != ci else ""), step)
+            if rb is not regs[cc["reg"]]:
+                return fail(f"catalog {cj} is bound to another region object than {cc['reg']}" + (" (a catalog the step did not touch)" if cj != ci else ""), step)
+        for t in tags:
+            if _snap(regs[t]) != snaps[t]:
+                return fail(f"region {t} (xs / ys / bbox_mask / idx_map / dh / polygons / mask / magnitudes / bounds) was changed", step)
+        steps.append(step)
+    # the Lean state machine replays each original catalog's own filter calls (regions a / b)
+    for c in cats:
+        if c.get("lean") and "init" in c:
+            ids0, bound, cs = c["init"]
+            evc = [ev[k] for k in ids0]
+            loc = {k: a for a, k in enumerate(ids0)}
+            impl = [im if im == "E" else ([loc[k] for k in im[0]], im[1], [loc[k] for k in im[2]], im[3]) for _, im in c["lean"]]
+            line = " ".join(["c01_filter", ",".join(frac(x) for x in region.xs), ",".join(frac(y) for y in region.ys),
+                             ",".join(str(i) for i, _ in cells), ",".join(str(j) for _, j in cells),
+                             ",".join(str(1 if f == 1 else 0) for f in flags), ",".join(str(f) for f in maskB),
+                             ",".join(frac(p[0]) for p in evc), ",".join(frac(p[1]) for p in evc),
+                             bound, "1" if cs else "0", ";".join(op for op, _ in c["lean"])])
+            q = drv.ask(line)
+            pending.append(dict(kind="ops-filter", q=q, case=dict(case0, points=[[repr(p[0]), repr(p[1])] for p in evc], ops=[op for op, _ in c["lean"]]),
+                                impl=impl, ev=evc, same=[1 if f == 1 else 0 for f in flags] == maskB))
+
+
+# ------------------------------------------------------------------------------------------------- non-finite coordinates, large catalogs
+def check_nonfinite(run, base, region, orc, pts, ans, orng, seed):
+    """+inf coordinates are beyond the bounding box: masked, ValueError on index lookup, removed by filter_spatial (enforced).
+    NaN and -inf: no cell contains them, so any ATTRIBUTION to a cell is a violation; the IndexError the unchanged code raises
+    instead of reporting them outside is AWAITING_DECISION[0] (observed, counted)."""
+    from csep.core.catalogs import CSEPCatalog
+    case = dict(base, points=[], what="ops:nonfinite", ops_seed=seed)
+    inside = [k for k in range(len(pts)) if ans[k] != "o"][:200]
+    if not inside:
+        return
+    k0 = orng.choice(inside)
+    good = pts[k0]
+    run.case(None, ("nonfinite", seed))
+    run.count("ops:nonfinite")
+    for val, enforced in ((math.inf, True), (-math.inf, False), (math.nan, False)):
+        for which in (0, 1, 2):
+            if val == math.inf and ((len(region.xs) == 1 and which in (0, 2)) or (len(region.ys) == 1 and which in (1, 2))):
+                continue      # beyond the open side of a single column / row: the known finding D4 (judged by the main oracle)
+            bad = (val if which in (0, 2) else good[0], val if which in (1, 2) else good[1])
+            lon = numpy.array([good[0], bad[0], good[0]])
+            lat = numpy.array([good[1], bad[1], good[1]])
+            name = f"({bad[0]!r}, {bad[1]!r})"
+            try:
+                m = [bool(v) for v in numpy.asarray(region.get_masked(lon.copy(), lat.copy()))]
+                res = "ok"
+            except IndexError:
+                res = "IndexError"
+            except Exception as e:
+                res = "EXC:" + type(e).__name__
+            if res == "ok":
+                if m != [False, True, False]:
+                    run.oracle_failure(dict(case, points=[[repr(bad[0]), repr(bad[1])]]),
+                                       f"get_masked of [inside point, {name}, inside point] is {m}; no cell contains {name}, the inside point is in cell {ans[k0]}")
+                    return
+            elif enforced or res != "IndexError":
+                run.oracle_failure(dict(case, points=[[repr(bad[0]), repr(bad[1])]]), f"get_masked with the point {name} raised {res}")
+                return
+            else:
+                run.count("awaiting-decision: NaN / -inf coordinate raises IndexError instead of being reported outside")
+                continue
+            try:
+                idx = region.get_index_of(numpy.array([bad[0]]), numpy.array([bad[1]]))
+                run.oracle_failure(dict(case, points=[[repr(bad[0]), repr(bad[1])]]), f"get_index_of({name}) returned {numpy.asarray(idx).tolist()!r} instead of raising ValueError")
+                return
+            except ValueError:
+                pass
+            except Exception as e:
+                run.oracle_failure(dict(case, points=[[repr(bad[0]), repr(bad[1])]]), f"get_index_of({name}) raised {type(e).__name__} instead of ValueError")
+                return
+            try:
+                cat = CSEPCatalog(data=[(str(i), 1000 * i, float(lat[i]), float(lon[i]), 10.0, 5.0) for i in range(3)], region=region)
+                cat.filter_spatial()
+                ids = [int(i) for i in cat.get_event_ids()]
+            except Exception as e:
+                ids = "EXC:" + type(e).__name__
+            if ids != [0, 2]:
+                run.oracle_failure(dict(case, points=[[repr(bad[0]), repr(bad[1])]]), f"filter_spatial of [inside, {name}, inside] kept {ids!r}, expected [0, 2]")
+                return
+
+
+def check_big_catalog(run, base, region, cells, flags, orc, pts, ans, exact_only, orng, seed):
+    """more than 2^16 events (not a multiple of 2^16), more than 65535 of them in ONE cell: lookups, filter and counts"""
+    from csep.core.catalogs import CSEPCatalog
+    case = dict(base, points=[], what="ops:big_catalog", ops_seed=seed)
+    pool = sorted(exact_only)
+    if len(region.xs) == 1:
+        pool = [k for k in pool if Fraction(pts[k][0]) < orc.ax.top]
+    if len(region.ys) == 1:
+        pool = [k for k in pool if Fraction(pts[k][1]) < orc.ay.top]
+    ins = [k for k in pool if ans[k] != "o"]
+    if not ins or not pool:
+        return
+    hot = orng.choice(ins)
+    ntot = 65536 + orng.randint(1000, 9000)
+    ids = numpy.array([hot] * (65536 + orng.randint(1, 500)) + [orng.choice(pool) for _ in range(600)])
+    ids = numpy.concatenate([ids, numpy.array([orng.choice(ins) for _ in range(max(1, ntot - len(ids)))])])
+    rs = numpy.random.default_rng(orng.randrange(2 ** 32))
+    ids = rs.permutation(ids)
+    lon = numpy.array([pts[k][0] for k in ids])
+    lat = numpy.array([pts[k][1] for k in ids])
+    exp = numpy.array([-1 if ans[k] == "o" else ans[k] for k in ids])
+    run.case(None, ("big-catalog", seed))
+    run.count("ops:big-catalog (> 2^16 events, > 65535 in one cell)")
+    run.evaluations += len(ids)
+    try:
+        m = numpy.asarray(region.get_masked(lon, lat)).astype(bool)
+        if m.shape != exp.shape or not numpy.array_equal(m, exp < 0):
+            k = int(numpy.argmax(m != (exp < 0))) if m.shape == exp.shape else 0
+            run.oracle_failure(dict(case, points=[[repr(lon[k]), repr(lat[k])]]), f"get_masked of {len(ids)} points: entry {k} is {bool(m[k]) if m.shape == exp.shape else m.shape}, the single lookup says cell {int(exp[k])}")
+            return
+        gi = numpy.asarray(region.get_index_of(lon[~m], lat[~m]))
+        if gi.shape != exp[~m].shape or not numpy.array_equal(gi, exp[~m]):
+            run.oracle_failure(case, f"get_index_of of {int((~m).sum())} points differs from the single lookups of the same points")
+            return
+        data = numpy.zeros(len(ids), dtype=[("id", "S256"), ("origin_time", "<i8"), ("latitude", "<f8"), ("longitude", "<f8"), ("depth", "<f8"), ("magnitude", "<f8")])
+        data["id"] = numpy.arange(len(ids)).astype("S256")
+        data["origin_time"] = numpy.arange(len(ids)) * 1000
+        data["latitude"], data["longitude"], data["depth"], data["magnitude"] = lat, lon, 10.0, 5.0
+        cat = CSEPCatalog(data=data, region=region)
+        kept = cat.filter_spatial(in_place=False)
+        if kept.event_count != int((exp >= 0).sum()) or not numpy.array_equal(numpy.asarray(kept.get_longitudes()), lon[exp >= 0]):
+            run.oracle_failure(case, f"filter_spatial kept {kept.event_count} of {len(ids)} events, {int((exp >= 0).sum())} lie in active cells")
+            return
+        sc = numpy.asarray(kept.spatial_counts())
+        ref = numpy.bincount(exp[exp >= 0], minlength=len(region.polygons))
+        if sc.shape != ref.shape or not numpy.array_equal(sc, ref):
+            k = int(numpy.argmax(sc != ref)) if sc.shape == ref.shape else 0
+            run.oracle_failure(case, f"spatial_counts of {kept.event_count} events: cell {k} holds {sc[k] if sc.shape == ref.shape else sc.shape}, expected {int(ref[k])} (largest cell {int(ref.max())})")
+            return
+        pr = numpy.asarray(kept.spatial_event_probability())
+        if pr.shape != ref.shape or not numpy.array_equal(pr, (ref > 0).astype(float)):
+            run.oracle_failure(case, "spatial_event_probability is not the 0/1 indicator of the occupied cells")
+    except Exception as e:
+        run.oracle_failure(case, f"catalog of {len(ids)} events: {type(e).__name__}: {str(e)[:150]}")
+
 # ------------------------------------------------------------------------------------------------- entry points
 def check_ops(run, drv, pending, spec, base, region, cells, flags, orc, rng, pts, ans, exact_only, case_seed=None, only=None):
     seed, orng = _ops_rng(rng, case_seed)
     n = len(region.polygons)
     shipped = spec.get("kind") == "shipped"
-    todo = only or ["masked", "eq", "incres", "filter"]
+    todo = only or ["masked", "eq", "incres", "nonfinite", "big", "shared", "filter"]
+
+    def guarded(name, fn):
+        # a crash while reading an implementation output is a missed detection: report it with the case as replay
+        try:
+            fn()
+        except (RuntimeError, KeyboardInterrupt, MemoryError):
+            raise
+        except Exception as e:
+            import traceback
+            run.oracle_failure(dict(base, points=[], what="ops:" + name, ops_seed=seed),
+                               f"unexpected {type(e).__name__} while checking {name}: {str(e)[:160]} | {traceback.format_exc().splitlines()[-3].strip()[:160]}")
+
     if "masked" in todo and n <= 20000 and not (shipped and n > 8000):
         sub = list(range(len(pts))) if len(pts) <= 500 else sorted(orng.sample(range(len(pts)), 500))
-        check_masked(run, drv, pending, base, region, cells, flags, orc, [pts[k] for k in sub], [ans[k] for k in sub], orng, seed)
+        guarded("masked_region", lambda: check_masked(run, drv, pending, base, region, cells, flags, orc, [pts[k] for k in sub],
+                                                      [ans[k] for k in sub], orng, seed))
     if "eq" in todo and len(region.xs) * len(region.ys) <= 4000:
-        check_eq_cartesian(run, base, spec, region, cells, flags, orc, orng, seed)
+        guarded("eq/get_cartesian", lambda: check_eq_cartesian(run, base, spec, region, cells, flags, orc, orng, seed))
     if "incres" in todo and not shipped:
-        check_incres(run, drv, pending, base, spec, region, cells, orng, seed)
+        guarded("increase_grid_resolution", lambda: check_incres(run, drv, pending, base, spec, region, cells, orng, seed))
+    if "nonfinite" in todo:
+        guarded("nonfinite", lambda: check_nonfinite(run, base, region, orc, pts, ans, orng, seed))
+    if "big" in todo and (only or run.extra.get("_big_done", 0) < run.extra.get("_big_quota", 2)) and n <= 3000:
+        run.extra["_big_done"] = run.extra.get("_big_done", 0) + 1
+        guarded("big_catalog", lambda: check_big_catalog(run, base, region, cells, flags, orc, pts, ans, exact_only, orng, seed))
+    if "shared" in todo:
+        guarded("shared_session", lambda: check_shared_session(run, drv, pending, base, spec, region, cells, flags, orc, pts, ans,
+                                                               exact_only, orng, seed))
     if "filter" in todo:
-        check_filter_sessions(run, drv, pending, base, spec, region, cells, flags, orc, pts, ans, exact_only, orng, seed)
+        guarded("filter_spatial", lambda: check_filter_sessions(run, drv, pending, base, spec, region, cells, flags, orc, pts, ans,
+                                                                exact_only, orng, seed))
 
 
 def flush_ops(run, rec, line):
